@@ -22,6 +22,10 @@ CHECKS = {
              text='FreshMeansUntouched, SearcherOrder, SearcherSeesSourceTime, NoDepsOnlyRequested, GeneratedWhenNeeded, OptionsPassed over all searcher answers (fresh/absent/error/silent) x rebuild x noDeps. (The file searchers own up-to-date answer, second half of C10, is being added as Searcher.tla.)', note=MC_NOTE),
  'C19': dict(engine='MibCompile', design='6 (C19 first half)', technique='TLA+ spec MibCompile.tla + TLC; replay through real MibCompiler with real AnyFileBorrower around reader doubles; TLC trace validation',
              text='BorrowOnlyFailures, FlavourMatch, BorrowOrder, Verbatim, NeverReplaceCompiled, RequestedStayEligible over all borrower lists (flavours, ok/nf/err) x failure placements x noDeps/genTexts/ignoreErrors.', note=MC_NOTE),
+
+ 'C18': dict(engine='OidIndex', design='6 (C18)', technique='TLA+ spec OidIndex.tla model-checked with TLC; every exported build history replayed through the real genIndex()/buildIndex(); per-call index snapshots validated by TLC (OidIndexTrace: refinement + property monitor)',
+             text='Listed, Cover (component-wise prefix), OnlyDefines, Monotone (action property over consecutive builds), Idempotent as TLC invariants for all histories of index builds over an OID universe whose arcs share decimal digits; the real index after every call is compared with MergeBatch and the formulas are evaluated on it.',
+             note='Trusted: TLC, Json module, the projection of the index JSON (harness). Scope: 2-3 modules, 4-7 OIDs, histories of <=3 calls, batches of <=2 modules; identity/enterprise/compliance variants from a fixed set. Idempotence is read as: nothing the index provides changes (sections and cover relation), see DESIGN.md.'),
 }
 PENDING = 'check under construction in this round; will be claimed when its TLA+ spec, replay and trace validation exist'
 
@@ -32,7 +36,8 @@ m = {
            'baseline_off_cmd': 'cd /repo && env -u PYSMI_VERIF /venv/bin/python -m pytest -ra -q -p no:cacheprovider --timeout=900 --continue-on-collection-errors',
            'source_commits': [], 'add_only': True},
  'engines': [{'name': 'MibCompile', 'path': 'specs/MibCompile.tla', 'serves_properties': ['C07', 'C08', 'C09', 'C10', 'C19'],
-              'kind_free_text': 'TLA+ state machine of MibCompiler.compile() with lazy environment; MibCompileProps.tla formulas; MibCompileTrace.tla batch trace validation'}],
+              'kind_free_text': 'TLA+ state machine of MibCompiler.compile() with lazy environment; MibCompileProps.tla formulas; MibCompileTrace.tla batch trace validation'},
+             {'name': 'OidIndex', 'path': 'specs/OidIndex.tla', 'serves_properties': ['C18'], 'kind_free_text': 'TLA+ model of the persistent OID->module index and its merge/compaction; OidIndexTrace.tla'}],
  'checks': [], 'not_applicable': [],
  'notes': 'All checks: cwd=/verif, ./check <id> --tier quick|thorough; exit 0 pass, 1 violation (VIOLATION line), 2 machinery failure. known_findings.json lists open findings and fixed: records.',
 }
